@@ -294,9 +294,19 @@ def edge_nodes_matching(view, patterns, keep_log=False):
     _, _, edge = view.graph()
     rxs = [re.compile(p) for p in patterns]
     out = []
+    # polarity: a pattern that is not anchored at the start describes a *positive* atom; it must not match the negated
+    # atom `!(...)` by accident (write `^!` or `^!?` to ask for the negative / either polarity)
+    unanch = [not p.startswith('^') and not p.startswith('!') for p in patterns]
     for en in edge:
         ss = atom_renderings(view.edge_atom(en))
-        if any(rx.search(s) for rx in rxs for s in ss):
+        hit = False
+        for rx, ua in zip(rxs, unanch):
+            for s in ss:
+                if ua and s.startswith('!'):
+                    continue
+                if rx.search(s):
+                    hit = True
+        if hit:
             out.append(en)
     return out
 
@@ -619,7 +629,7 @@ def use_after_drain(view):
 
 # ---------------------------------------------------------------------------------------------
 # must-effects: writes to self.<field> that happen on *every* path of a method (through local callees)
-def must_field_effects(F, view, depth=3, _seen=None):
+def must_field_effects(F, view, depth=3, _seen=None, targets=None):
     """-> {field: set(renderings of the value written / 'clear()' ...)} for effects that every
     entry->return path performs.  Callee effects count when the call block is on every path."""
     _seen = _seen or set()
@@ -654,7 +664,7 @@ def must_field_effects(F, view, depth=3, _seen=None):
             ok = True
         else:
             seen = view.reach([0], avoid=blocks)
-            ok = not any(e in seen for e in view.exits())
+            ok = not any(e in seen for e in (view.exits() if targets is None else targets))
         if ok:
             out[f] = {w for b in blocks for ff, w in per_block[b] if ff == f}
     return out
@@ -695,3 +705,39 @@ def view_must_blocks(view):
         if not any(e in seen for e in ex):
             out.add(b)
     return out
+
+
+def ok_blocks(view):
+    return [b for b, e in ret_variants(view) if (e[0] == 'agg' and e[2] == 'Ok')]
+
+
+def reaches_ret(view, from_patterns, want, avoid_patterns=()):
+    """Sufficiency: from the innermost edge of the nested conjunction `from_patterns`, a return whose rendering/variant is `want`
+    is reachable without taking any edge matching `avoid_patterns`.  None when the conjunction does not occur."""
+    edges = None
+    for pat in from_patterns:
+        cand = edge_nodes_matching(view, [pat])
+        edges = cand if edges is None else [e for e in cand if any(view.dominates(p, e) for p in edges)]
+        if not edges:
+            return None
+    avoid = edge_nodes_matching(view, list(avoid_patterns)) if avoid_patterns else []
+    rv = ret_variants(view)
+    for en in edges:
+        r = view.reach([en], avoid=avoid)
+        for b, e in rv:
+            if b in r:
+                lab = e[2] if e[0] == 'agg' and e[2] in ('Ok', 'Err', 'Some', 'None') else show(e)
+                if lab == want:
+                    return True
+    return False
+
+
+def reaching_defs(view, name, bb):
+    """Definitions (bb, idx, rendered value) of the user variable `name` that can reach the *end* of block bb
+    (i.e. its terminator: the position of a call in that block) without an intervening redefinition."""
+    from .mir import var_init_sites
+    from .cursor import _reaches
+    sites = var_init_sites(view, name)
+    alld = [(b, i, k) for k, (b, i, e) in enumerate(sites)]
+    use = (bb, len(view.blocks[bb]['stmts']) + 1)
+    return sorted((b, i, show(sites[k][2])) for (b, i, k) in alld if _reaches(view, alld, (b, i), use))
